@@ -20,7 +20,7 @@ import (
 	"verif/h/walk"
 )
 
-var kfNamedI8, kfNamedVec bool
+var kfNamedI8, kfNamedVec, kfNamedTwoStep bool
 
 func TestMain(m *testing.M) {
 	hx.Main(m, "C02", func() {
@@ -31,6 +31,10 @@ func TestMain(m *testing.M) {
 		kfNamedVec = kf.Activate("KF-C02-named-vector-derived-type", func(in string) bool {
 			class, _ := fixpoint(in)
 			return class == "not_structurally_identical"
+		})
+		kfNamedTwoStep = kf.Activate("KF-C02-named-nonstruct-two-step", func(in string) bool {
+			class, msg := fixpoint(in)
+			return class == "not_a_fixpoint" && strings.Contains(msg, "%P %b")
 		})
 	})
 }
@@ -195,10 +199,15 @@ func TestGenerated(t *testing.T) {
 			delete(noise.TypeAlias, "i8")
 			kf.Hit("KF-C02-named-i8-blockaddress")
 		}
-		if noise.VecAlias && kfNamedVec {
+		if noise.VecAlias && (kfNamedVec || kfNamedTwoStep) {
 			// known finding: the name of a vector type is not kept where the IR derives the type of a value itself
 			noise.VecAlias = false
-			kf.Hit("KF-C02-named-vector-derived-type")
+			if kfNamedVec {
+				kf.Hit("KF-C02-named-vector-derived-type")
+			}
+			if kfNamedTwoStep {
+				kf.Hit("KF-C02-named-nonstruct-two-step")
+			}
 		}
 		x := m.TextNoisy(noise)
 		hx.Eval(1)
